@@ -269,6 +269,28 @@ class Ctx:
         caps = cterm[2]
         pr_ge, pr_ne, pr_other = pctx.facts_at(bb)
         pr_ge = list(pr_ge) + pctx.derived(bb, pr_ge, pr_ne, pr_other, [])
+        from .invariants import tighten as _tighten
+        upv = body.j.get("upvars") or []
+        for i, cap in enumerate(caps):
+            # integer captured by value or by shared reference: its proven range at the closure's creation
+            mut_cap = False
+            for uv in upv:
+                for pr_ in uv["p"]["pr"]:
+                    if pr_.get("k") == "field" and pr_.get("i") == i and (pr_.get("ty") or {}).get("k") == "ref" and pr_["ty"].get("m"):
+                        mut_cap = True
+            if not mut_cap:
+                pc = psy.poly(cap)
+                if pc is not None:
+                    prc, _, _ = pctx.prover_at(bb, [pc])
+                    lo_c, hi_c = poly_interval(pc, prc.box)
+                    lo_c, hi_c = _tighten(prc, pc, lo_c, hi_c)
+                    if lo_c is not None or hi_c is not None:
+                        nm_c = "arg1.%d" % i
+                        old_c = self.sy.sym_box.get(nm_c, (None, None))
+                        self.sy.sym_box[nm_c] = (lo_c if old_c[0] is None else (old_c[0] if lo_c is None else max(lo_c, old_c[0])),
+                                                 hi_c if old_c[1] is None else (old_c[1] if hi_c is None else min(hi_c, old_c[1])))
+                        self.cap_box = getattr(self, "cap_box", {})
+                        self.cap_box[nm_c] = self.sy.sym_box[nm_c]
         for i, cap in enumerate(caps):
             cname_ = psy.name(unmut(cap))
             for f in pr_ge:
@@ -349,7 +371,7 @@ class Ctx:
         for p in polys:
             for s in p.syms():
                 b[s] = self.sy.sym_box.get(s, (None, None))
-                pb_ = getattr(self, "param_box", {}).get(s)
+                pb_ = getattr(self, "param_box", {}).get(s) or getattr(self, "cap_box", {}).get(s)
                 if pb_ is not None:
                     lo, hi = b[s]
                     nlo = pb_[0] if lo is None else (lo if pb_[0] is None else max(lo, pb_[0]))
